@@ -29,7 +29,10 @@ def run(tier):
     from ..mgmmodel import model_part
     for k in ([2] if quick else [1, 2, 4]):
         model_part(v, tier, ["FinishedAtStop", "QuietMeansFinished"], CLAUSES, ["quiet_fin", "stop"], seed_off=7 + k, stop=k,
-                   shapes=["pair", "unarypair", "isolated", "isounary", "path3", "fork3", "triangle"] + ([] if quick else ["tern", "twocomp", "path3d3"]))
+                   shapes=["pair", "isolated", "isounary", "path3"] if quick else ["pair", "unarypair", "isolated", "isounary", "path3", "fork3", "triangle", "tern", "twocomp", "path3d3"])
+    from ..mgm2model import model_part as mgm2_part
+    mgm2_part(v, tier, ["FinishedAtStop", "QuietMeansFinished"], CLAUSES, ["quiet_fin", "stop"], seed_off=7, stop=2 if quick else 3,
+              shapes=["pair", "isolated", "path3"] if quick else None)
     from ..dsamodel import model_part as dsa_model_part
     dsa_model_part(v, tier, ["FinishedAtStop", "QuietMeansFinished"], CLAUSES, ["quiet_fin", "stop"], seed_off=7)
     return v.finish()
